@@ -88,6 +88,10 @@ mod imp {
                        /// written as a top-level lambda in a variable (`let mut NAME = fn(x) { .. }`) instead of `fn NAME(x) { .. }`
                        pub lambda: bool }
 
+    /// what a host call of a name bound by Script statements returns for the argument n
+    #[derive(Clone, Debug, PartialEq)]
+    pub enum ScriptFn { Add(i64), Mul(i64), Const(String), Str }
+    impl ScriptFn { pub fn apply(&self, n: i64) -> String { match self { ScriptFn::Add(k) => (n + k).to_string(), ScriptFn::Mul(k) => (n * k).to_string(), ScriptFn::Const(s) => s.clone(), ScriptFn::Str => n.to_string() } } }
     #[derive(Clone, Debug, PartialEq)]
     pub enum Stmt {
         Let { name: String, mutable: bool, val: Val },
@@ -99,7 +103,8 @@ mod imp {
         /// an expression statement that touches no global (`1 + 1`): the input's unit has the empty layout
         Quiet,
         /// source text outside the modelled fragment with the output it must print (closures over locals, ...)
-        Script { text: String, out: String },
+        /// bind: the statement (re)binds this global to a callable with this behaviour
+        Script { text: String, out: String, bind: Option<(String, ScriptFn)> },
         PrintVar { name: String },
         PrintCall { f: String, arg: i64 },
         PrintApply { a: String, f: String, arg: i64 },   // println(a(f, arg)): a takes a function value and has no globals
@@ -166,7 +171,7 @@ mod imp {
                         /// modules whose top level has run in this session, their counters, host-callable names of their bump functions
                         pub loaded: HashSet<usize>, pub modn: HashMap<usize, i64>, pub bump_fns: HashMap<String, usize>,
                         /// closures defined by Script statements that the host may call: name -> what is added to the argument
-                        pub script_fns: HashMap<String, i64> }
+                        pub script_fns: HashMap<String, ScriptFn> }
     pub struct OStep { pub class: &'static str, pub output: String, pub value: String }
     impl Oracle {
         pub fn new() -> Self { Oracle { vars: HashMap::new(), fns: HashMap::new(), imported: HashMap::new(), loaded: HashSet::new(), modn: HashMap::new(), bump_fns: HashMap::new(), script_fns: HashMap::new() } }
@@ -210,7 +215,7 @@ mod imp {
                     Stmt::Def { name, def } => { self.vars.remove(name); self.fns.insert(name.clone(), def.clone()); }
                     Stmt::CopyFn { dst, src, .. } => { if let Some(d) = self.fns.get(src).cloned() { self.vars.remove(dst); self.fns.insert(dst.clone(), d); } }
                     Stmt::Quiet => {}
-                    Stmt::Script { out: o, .. } => { out.push_str(o); if expect == Expect::RuntimeError { return OStep { class: "runtime-error", output: out, value: String::new() }; } }
+                    Stmt::Script { out: o, bind, .. } => { if let Some((n, f)) = bind { self.script_fns.insert(n.clone(), f.clone()); } out.push_str(o); if expect == Expect::RuntimeError { return OStep { class: "runtime-error", output: out, value: String::new() }; } }
                     Stmt::PrintVar { name } => { out.push_str(&self.vars[name].0.show()); out.push('\n'); }
                     Stmt::PrintLit { text } => { out.push_str(text); out.push('\n'); }
                     Stmt::PrintCall { f, arg } | Stmt::PrintApply { f, arg, .. } => match self.call(f, *arg, &mut out) {
@@ -226,7 +231,7 @@ mod imp {
             OStep { class: "ok", output: out, value: String::new() }
         }
         pub fn host(&mut self, f: &str, arg: i64) -> OStep {
-            if let Some(k) = self.script_fns.get(f) { return OStep { class: "ok", output: String::new(), value: (arg + k).to_string() }; }
+            if let Some(k) = self.script_fns.get(f) { return OStep { class: "ok", output: String::new(), value: k.apply(arg) }; }
             if let Some(mi) = self.bump_fns.get(f).copied() { let n = self.modn.get(&mi).copied().unwrap_or(0) + 1; self.modn.insert(mi, n);
                 return OStep { class: "ok", output: String::new(), value: n.to_string() }; }
             if let Some(k) = self.imported.get(f) { return OStep { class: "ok", output: String::new(), value: (arg * k).to_string() }; }
@@ -488,7 +493,7 @@ mod imp {
             if let Some(st) = self.queued.pop() {
                 // still valid? (a queued host call of a function that an input in between removed is dropped)
                 match &st { Step::Host { f, .. } if !self.o.fns.contains_key(f) && !self.o.script_fns.contains_key(f) => {},
-                            Step::Hold { f } | Step::CallHeld { f, .. } if !self.o.fns.contains_key(f) => {}, Step::HostSet { name, .. } if !self.o.vars.contains_key(name) => {}, _ => return st }
+                            Step::Hold { f } | Step::CallHeld { f, .. } if !self.o.fns.contains_key(f) && !self.o.script_fns.contains_key(f) => {}, Step::HostSet { name, .. } if !self.o.vars.contains_key(name) => {}, _ => return st }
             }
             if let Some(p) = self.rejected_probe.pop() {
                 return Step::Input { stmts: vec![Stmt::Raw { text: format!("println({})", p.text) }], expect: Expect::CompileError };
@@ -562,10 +567,10 @@ mod imp {
             }
             // directed: a closure ESCAPES from a function that then fails (stored in a global); later calls reuse the registers
             // of the dead frame, another closure captures the same (base, register); collections in between
-            if self.rng.chance(1, 60) {
+            if self.rng.chance(1, 90) {
                 let id = { self.n += 1; self.n };
                 let v = self.rng.range_i64(10, 90);
-                let sc = |text: String, out: String| Stmt::Script { text, out };
+                let sc = |text: String, out: String| Stmt::Script { text, out, bind: None };
                 let inp = |st: Stmt, e: Expect| Step::Input { stmts: vec![st], expect: e };
                 let gc = self.rng.chance(1, 2);
                 let mut seq: Vec<Step> = Vec::new();
@@ -578,9 +583,35 @@ mod imp {
                 seq.push(inp(sc(format!("fn mkt{id}(x) {{ let mut d = 77; let g2 = fn(y) {{ return d + y }}; d = 78; return g2 }}\nlet q{id} = mkt{id}(0)\nprintln(q{id}(0))\nprintln(e{id}(2))"), format!("78\n{}\n", v + 2)), Expect::Ok));
                 seq.push(Step::Host { f: format!("e{id}"), arg: 3, cached: self.rng.chance(1, 2), extra: false });
                 if gc { seq.push(Step::Gc(false)); }
-                self.o.script_fns.insert(format!("e{id}"), v);
+                self.o.script_fns.insert(format!("e{id}"), ScriptFn::Add(v));
                 for st in seq.into_iter().rev() { self.queued.push(st); }
                 return inp(sc(format!("let mut e{id} = null\nfn nope{id}(x) {{ return zero }}"), String::new()), Expect::Ok);
+            }
+            // directed: the host keeps a handle of a NAME that denotes a native (or a user function / a closure) when the handle is
+            // taken and something of another kind when the handle is used: native -> user function -> another native -> closure, or
+            // user function -> native
+            if self.rng.chance(1, 110) {
+                let id = { self.n += 1; self.n };
+                let cb = format!("cb{id}");
+                let bindst = |text: String, f: ScriptFn, cb: &str| Step::Input { stmts: vec![Stmt::Script { text, out: String::new(), bind: Some((cb.to_string(), f)) }], expect: Expect::Ok };
+                let held = |cb: &str| Step::CallHeld { f: cb.to_string(), arg: 7 };
+                let byname = |cb: &str| Step::Host { f: cb.to_string(), arg: 7, cached: false, extra: false };
+                let mut seq: Vec<Step> = Vec::new();
+                let first;
+                if self.rng.chance(1, 2) {
+                    first = bindst(format!("let mut {cb} = type"), ScriptFn::Const("int".into()), &cb);
+                    seq.push(Step::Hold { f: cb.clone() }); seq.push(held(&cb));
+                    seq.push(bindst(format!("fn six{id}(x) {{ return x * 6 }}\n{cb} = six{id}"), ScriptFn::Mul(6), &cb)); seq.push(held(&cb)); seq.push(byname(&cb));
+                    seq.push(bindst(format!("{cb} = __tostring"), ScriptFn::Str, &cb)); seq.push(held(&cb));
+                    seq.push(bindst(format!("fn mkc{id}(k) {{ return fn(x) {{ return x + k }} }}\n{cb} = mkc{id}(5)"), ScriptFn::Add(5), &cb)); seq.push(held(&cb));
+                } else {
+                    first = bindst(format!("fn six{id}(x) {{ return x * 6 }}\nlet mut {cb} = six{id}"), ScriptFn::Mul(6), &cb);
+                    seq.push(Step::Hold { f: cb.clone() }); seq.push(held(&cb));
+                    seq.push(bindst(format!("{cb} = type"), ScriptFn::Const("int".into()), &cb)); seq.push(held(&cb)); seq.push(byname(&cb));
+                    seq.push(bindst(format!("{cb} = six{id}"), ScriptFn::Mul(6), &cb)); seq.push(held(&cb));
+                }
+                for st in seq.into_iter().rev() { self.queued.push(st); }
+                return first;
             }
             // directed: the host keeps a handle of a function, the function is redefined, collections happen, the handle is used
             if self.rng.chance(1, 12) {
